@@ -516,6 +516,10 @@ pub struct C17Case {
     /// the CONNACKs repeat the interval (same value) or are silent about it
     pub connack_repeats: bool,
     pub ago: Ago,
+    /// a new QoS 1 publish is issued while the client is disconnected (its request waits in
+    /// the queue): the retransmissions must be written before it
+    #[serde(default)]
+    pub queued_during_outage: bool,
 }
 
 pub struct C17;
@@ -660,6 +664,18 @@ fn run_c17(case: &C17Case, cut: usize, o: &mut Outcome) -> Option<Failure> {
     w.sync_wire();
     let skip = w.pkts.len(); // the CONNECT
     w.tick();
+    let mut late_op = None;
+    if case.queued_during_outage {
+        let op = w.start_op(0, OpSpec::Publish(PublishSpec {
+            qos: Some(1),
+            topic: Some("c17/late".into()),
+            payload: Some(b"late".to_vec()),
+            ..Default::default()
+        })).unwrap();
+        w.poll_op(op); // submitted: the request sits in the queue
+        late_op = Some(op);
+        o.class("request-queued-during-outage");
+    }
     w.start_run();
     settle(&mut w, &plan, false);
     if let Some(p) = first_panic(&w) {
@@ -674,6 +690,32 @@ fn run_c17(case: &C17Case, cut: usize, o: &mut Outcome) -> Option<Failure> {
         match &p.decoded {
             Ok(x) => got.push(x.clone()),
             Err(er) => return Some(Failure { sig: "C17/malformed-retransmission".into(), msg: er.0.clone() }),
+        }
+    }
+    // the request queued during the outage: after every retransmission, exactly once
+    if let Some(op) = late_op {
+        let pos = got.iter().position(|p| matches!(p, rc::Packet::Publish(x) if x.topic == "c17/late"));
+        match pos {
+            Some(k) if k + 1 == got.len() => {
+                if let rc::Packet::Publish(x) = &got[k] {
+                    if x.dup {
+                        return Some(Failure { sig: "C17/new-request-marked-dup".into(), msg: format!("{x:?}") });
+                    }
+                }
+                got.pop();
+            }
+            Some(k) => {
+                return Some(Failure {
+                    sig: "C17/new-request-before-retransmissions".into(),
+                    msg: format!("the publish issued during the outage is packet #{k} of {} on the second connection; re-sent packets follow it", got.len()),
+                })
+            }
+            None => {
+                return Some(Failure {
+                    sig: "C17/new-request-lost".into(),
+                    msg: format!("the publish issued during the outage never reached the wire (result {:?})", w.ops[op].res),
+                })
+            }
         }
     }
     o.class(if alive { "session-alive" } else { "session-expired" });
@@ -752,7 +794,7 @@ impl Property for C17 {
     type Case = C17Case;
 
     fn strategy(tier: Tier) -> BoxedStrategy<C17Case> {
-        (
+        let s = (
             vec(
                 prop_oneof![3 => Just(Step::Pub1), 4 => Just(Step::Pub2), 3 => Just(Step::AckOldest), 2 => Just(Step::AckNewest)],
                 1..tier.pick(10, 20),
@@ -766,7 +808,13 @@ impl Property for C17 {
             any::<bool>(),
             prop_oneof![Just(Ago::Now), Just(Ago::HalfExpiry), Just(Ago::LongAfterExpiry)],
         )
-            .prop_map(|(history, expiry, connack_repeats, ago)| C17Case { history, expiry, connack_repeats, ago })
+            .prop_map(|(history, expiry, connack_repeats, ago)| C17Case { history, expiry, connack_repeats, ago, queued_during_outage: false })
+            .boxed();
+        (s, prop::bool::weighted(0.3))
+            .prop_map(|(mut c, q)| {
+                c.queued_during_outage = q;
+                c
+            })
             .boxed()
     }
 
